@@ -20,9 +20,9 @@ from checks import insertmany_common as C
 
 LEVEL = "model_checking"
 MANIFEST = dict(
-    text="InsertMany.tla models one executemany INSERT as pages sent to a database that stores each page and returns its RETURNING rows in ANY order (TLC chooses every permutation of every page), with the engine's mechanism on top: page cutting, downgrade to one statement per row when ordering is requested without a usable sentinel, client-side sentinel lookup (Uuid default, composite primary key, insert_sentinel counter) or sort on the server key (implicit sentinel). TLC checks exhaustively (0..5/6 parameter sets x page size 1..3/4 x 6 sentinel styles x sort/returning flags) that every parameter set is stored exactly once, one row per set is returned, and with sort_by_parameter_order the n-th row and primary key belong to the n-th parameter set for every permutation. Every behaviour of the graph is then executed on SQLite through a cursor that permutes fetchall() as TLC chose, comparing every page sent, the table after every statement and the delivered rows / inserted_primary_key_rows / ORM object keys, for Core returning(), return_defaults(), ORM bulk INSERT and ORM flush under six paramstyles.",
+    text="InsertMany.tla models one executemany INSERT as pages sent to a database that stores each page and returns its RETURNING rows in ANY order (TLC chooses every permutation of every page), with the engine's mechanism on top: page cutting, downgrade to one statement per row when ordering is requested without a usable sentinel, client-side sentinel lookup (Uuid default, composite primary key, insert_sentinel counter) or sort on the server key (implicit sentinel, with and without the embedded VALUES counter). TLC checks exhaustively (0..5 parameter sets x page size 1..3 in the quick tier, 0..7 x 1..4 thorough, x 7 sentinel styles x sort/returning flags) that every parameter set is stored exactly once, one row per set is returned, and with sort_by_parameter_order the n-th row and primary key belong to the n-th parameter set for every permutation. Every behaviour of the graph is then executed on SQLite through a cursor that permutes fetchall() as TLC chose, comparing every page sent, the table after every statement and the delivered rows / inserted_primary_key_rows / ORM object keys, for Core returning(), return_defaults(), ORM bulk INSERT and ORM flush under six paramstyles; the batches the PostgreSQL, MariaDB and SQL Server dialects would send are checked for shape (pages, VALUES counter, parameter placement).",
     design_ref="3.14 (InsertMany), 4 (C12), 6 row 'C01, C12'",
-    note="trusted: TLC; the permuting cursor as model of a database that returns RETURNING rows in arbitrary order; SQLite stores VALUES tuples in order (the implicit-sentinel assumption is forced onto the SQLite dialect by setting insertmanyvalues_implicit_sentinel=AUTOINCREMENT); PostgreSQL's INSERT..SELECT..ORDER BY sen_counter form is checked for shape only (counter i on the i-th VALUES tuple, parameters in order), never executed; non-native paramstyles run through a placeholder-translating cursor",
+    note="trusted: TLC; the permuting cursor as model of a database that returns RETURNING rows in arbitrary order; SQLite stores VALUES tuples in order (the implicit-sentinel assumption is forced onto the SQLite dialect by setting insertmanyvalues_implicit_sentinel=AUTOINCREMENT); the INSERT..SELECT..ORDER BY sen_counter form of PostgreSQL / SQL Server is executed on SQLite through the alias-rewriting cursor (style 'counter') and checked for shape on the real PostgreSQL / SQL Server / MariaDB dialects (counter i on the i-th VALUES tuple, parameters in order), never executed on those servers; non-native paramstyles run through a placeholder-translating cursor",
     technique="TLA+ spec (InsertMany.tla) + TLC exhaustive model checking; spec->code replay of every behaviour of the state graph through a permuting DBAPI cursor on SQLite")
 INVS = ["ExactlyOnce", "KeysUnique", "SentinelsUnique", "OneRowPerSet", "InOrder", "PkBelongs", "PagesOK"]
 PROPS = ["DeliversPage"]
@@ -486,7 +486,8 @@ def main(chk):
              checker_cmd="tlc InsertMany.tla (VIEW View, ACTION_CONSTRAINT Emit)", constants={k: v for k, v in consts.items() if isinstance(v, int)}),
         assumptions=["SQLite only executes; the database adversary is the permuting cursor",
                      "implicit sentinel executed by forcing the dialect flag on SQLite (keys handed out in VALUES order: true for SQLite, assumed for MariaDB)",
-                     "PostgreSQL / MariaDB / SQL Server: shape of the batched statements only"])
+                     "PostgreSQL / SQL Server statement form executed on SQLite via the alias-rewriting cursor; on the real dialects: shape of the batched statements only",
+                     "upsert clauses under sort_by_parameter_order are covered by C56 (Upsert.tla)"])
 
 
 _PS = None
